@@ -258,6 +258,13 @@ def listener_config(options, name, priority=999):
 def test_handler(event, response):
     """second result handler of the runs (Listener.test_handler in the model)"""
     if response[:1] == b'!':
+        # anything a handler may raise, also exceptions that are no `Exception`: sys.exit(), Ctrl-C, GeneratorExit
+        if response[1:2] == b'S':
+            raise SystemExit(3)
+        if response[1:2] == b'K':
+            raise KeyboardInterrupt()
+        if response[1:2] == b'G':
+            raise GeneratorExit()
         raise KeyError('handler failed')
     if response[:1] != b'O':
         raise sdisp.RejectEvent(response)
